@@ -444,6 +444,7 @@ def run(ctx: Ctx):
 
     # ---- S5' the chunked windows: element (i, r, b) of the strided view is hist[t + r - Nm1 + i, b] -------------------
     _strided_windows(ctx, rel)
+    _sos_renamed_in_every_order(ctx, rel)
 
     _offset_width_headroom(ctx, rel)
     _arpa_numeric_grammar(ctx)
@@ -485,6 +486,80 @@ def run(ctx: Ctx):
     )
 
 
+def _sos_renamed_in_every_order(ctx: Ctx, rel: str):
+    """S10: a start symbol outside the vocabulary is stored under the id `vocab_size`; the kernel pads histories with that id, so an
+    n-gram of ANY order whose key contains the start symbol must be re-keyed - one left under the old id is never found again and
+    the model backs off where the table lists a value. The orders visited by the re-keying (the unigram table by its index, the
+    others by the loop's range) are evaluated for tables of order 1..5: every order 0..N-1 must be visited."""
+    from sa.inteval import NotEvaluable, int_eval
+    col, pkg = ctx.col, ctx.pkg
+    build = pkg.func(f"{MOD}::{CLS}._build_trie")
+    where = f"{rel}::{CLS}._build_trie"
+    table = build.params[1].name if len(build.params) > 1 else None
+    blocks = [n for n in own_nodes(build.node) if isinstance(n, ast.If) and u(n.test) in ("self.shift", "self.shift == 1", "self.shift > 0", "self.shift != 0")]
+    blocks = [b for b in blocks if any(isinstance(c, ast.Call) and isinstance(c.func, ast.Attribute) and c.func.attr == "pop" for c in ast.walk(b))]
+    if table is None or len(blocks) != 1:
+        raise AnalysisError(f"C06: the re-keying block `if self.shift:` of _build_trie was not found ({len(blocks)})")
+    blk = blocks[0]
+    pm = parent_map(blk)
+    # aliases of one order's table: `prob_dict = prob_dicts[n]`
+    alias = {}
+    for n in ast.walk(blk):
+        if isinstance(n, ast.Assign) and len(n.targets) == 1 and isinstance(n.targets[0], ast.Name) and isinstance(n.value, ast.Subscript) \
+                and u(n.value.value) == table:
+            alias[n.targets[0].id] = n.value.slice
+    visits = []  # (index expression, enclosing range loops)
+    for n in ast.walk(blk):
+        if isinstance(n, ast.Call) and isinstance(n.func, ast.Attribute) and n.func.attr == "pop":
+            tgt = n.func.value
+            idx = None
+            if isinstance(tgt, ast.Subscript) and u(tgt.value) == table:
+                idx = tgt.slice
+            elif isinstance(tgt, ast.Name) and tgt.id in alias:
+                idx = alias[tgt.id]
+            if idx is None:
+                continue
+            loops = []
+            q = pm.get(n)
+            while q is not None:
+                if isinstance(q, ast.For):
+                    loops.append(q)
+                q = pm.get(q)
+            visits.append((idx, loops, n))
+    col.floor("sos_rekey_sites", len(visits), 2)
+    bad = None
+    try:
+        for N in (1, 2, 3, 4, 5):
+            env0 = {"self.max_ngram": N, "N": N, f"len({table})": N}
+            got = set()
+            for idx, loops, _ in visits:
+                envs = [dict(env0)]
+                for lp in reversed(loops):
+                    if not (isinstance(lp.iter, ast.Call) and call_name(lp.iter) == "range" and isinstance(lp.target, ast.Name)):
+                        if any(isinstance(x, ast.Name) and isinstance(lp.target, ast.Name) and x.id == lp.target.id for x in ast.walk(idx)):
+                            raise NotEvaluable(f"loop `{u(lp.iter)[:40]}`")
+                        continue
+                    nxt = []
+                    for e_ in envs:
+                        args = [int_eval(a, e_) for a in lp.iter.args]
+                        for i_ in range(*args):
+                            e2 = dict(e_)
+                            e2[lp.target.id] = i_
+                            nxt.append(e2)
+                    envs = nxt
+                for e_ in envs:
+                    got.add(int_eval(idx, e_))
+            if got != set(range(N)) and bad is None:
+                bad = (N, sorted(got))
+    except NotEvaluable as e:
+        col.undecided(f"{where}: the orders visited by the start-symbol re-keying are outside the evaluated fragment ({e})")
+        return
+    col.ob("G12", "S10", f"{where}::start-symbol-rekeyed-in-every-order", bad is None,
+           (f"for a table of order {bad[0]} the start symbol is re-keyed in the orders {bad[1]} (0-based) only: an n-gram of a skipped order "
+            f"that contains the start symbol keeps the old id, the kernel (which pads with vocab_size) never finds it and backs off instead") if bad else "",
+           rel, blk.lineno, sample=dict(sites=len(visits)))
+
+
 def _strided_windows(ctx: Ctx, rel: str):
     """calc_full_log_probs_chunked scores T_rest time steps at once through `hist.as_strided((Nm1, T_rest * B), (B, 1),
     off)`: column r * B + b, row i of the view must be the token that the one-step code reads for time t + r, i.e.
@@ -524,6 +599,21 @@ def _strided_windows(ctx: Ctx, rel: str):
         if isinstance(e, ast.Attribute) and u(e) == "self.max_ngram":
             return "N"
         return None
+    # strides written in terms of the SHAPE ((B, 1) for a (T, B) tensor) describe the storage only of a contiguous tensor: every
+    # definition of the receiver that reaches the view must be `<x>.contiguous()` or a freshly built tensor. (A transposed or
+    # sliced history - hist.t(), hist[:, ::2] - has other strides; the view would then read tokens of other steps / sequences.)
+    fresh = ("torch.cat", "torch.stack", "torch.zeros", "torch.ones", "torch.empty", "torch.full", "torch.arange", "torch.tensor")
+    if isinstance(v.func.value, ast.Name):
+        defs = rd.defs_of(v.func.value)
+        not_contig = [d for d in defs if not (d.kind == "assign" and isinstance(d.value, ast.Call)
+                                              and ((isinstance(d.value.func, ast.Attribute) and d.value.func.attr == "contiguous")
+                                                   or call_name(d.value) in fresh))]
+        shape_strides = not any(isinstance(x, ast.Call) and isinstance(x.func, ast.Attribute) and x.func.attr == "stride" for x in ast.walk(v.args[1]))
+        if shape_strides:
+            col.ob("G12", "S5", f"{rel}::{CLS}.calc_full_log_probs_chunked::strided-window-over-contiguous-storage", bool(defs) and not not_contig,
+                   f"`{u(v)[:70]}` takes its strides from the shape, which is right only for a contiguous tensor, but `{recv}` may be "
+                   f"{', '.join(sorted({d.kind + (':' + u(d.value)[:30] if d.value is not None else '') for d in not_contig}))} here: for a "
+                   f"transposed or strided history the windows hold tokens of other steps", rel, v.lineno, sample=[d.kind for d in defs])
     ex = MM.Extractor(rd, leaf_of_def, leaf_of_expr)
     size, stride, off = v.args
     ok = isinstance(size, ast.Tuple) and isinstance(stride, ast.Tuple) and len(size.elts) == 2 and len(stride.elts) == 2
